@@ -221,7 +221,7 @@ def iter_next(ex, it):
         x = iter_next(ex, it.src)
         if x is None:
             return None
-        v = deref_all(ex, x)
+        v = ex.read_ref(x) if isinstance(x, Ref) else x          # exactly one level: Iterator<Item = &T> -> T
         if isinstance(v, SymVal) or (isinstance(v, Agg) and v.ty == "Value"):
             return ex.call(None, "<value::Value as std::clone::Clone>::clone", [x])
         return copy_val(v)
@@ -494,6 +494,13 @@ def call(ex, callee, args):
             model("str::to_owned / to_string = same text")
             return v
         return NotImplemented
+    if re.match(r"core::bool::<impl bool>::(then_some|then)", c):
+        model("bool::then_some / then")
+        b = args[0]
+        lab = ex.choose([(True, b.t), (False, z3.Not(b.t))], "bool-then")
+        if not lab:
+            return NONE()
+        return some(args[1] if "then_some" in c else ex.call_closure(args[1], []))
     if base == "std::hint::must_use":
         return args[0]
     if tt and tt[1] == "std::default::Default" and tt[2] == "default":
@@ -812,6 +819,14 @@ def call(ex, callee, args):
         v.items[n] = v.items[-1]
         v.items.pop()
         return x
+    if re.match(r"core::slice::<impl \[.*\]>::reverse$", c):
+        v = deref_all(ex, args[0])
+        if isinstance(v, VecV) and v.items is not None:
+            model("slice::reverse")
+            if isinstance(args[0], Ref) and args[0].cell.ro:
+                raise Panic(f"WRITE-TO-SHARED-STATE: reverse in read-only region {args[0].cell.name}")
+            v.items.reverse()
+            return Agg("tuple")
     if re.match(r"core::slice::<impl \[.*\]>::(first|last)$", c):
         v = deref_all(ex, args[0])
         if isinstance(v, VecV) and v.items is not None:
@@ -884,6 +899,13 @@ def call(ex, callee, args):
                     return do_insert(args[1])
                 if meth == "or_insert_with":
                     return do_insert(ex.call_closure(args[1], []))
+                if meth == "or_default":
+                    g = generic_args(re.sub(r"::or_default$", "", c).replace("::<", "<", 1)) if "::<" in c else []
+                    vt = strip_generics(g[-1]).split("::")[-1] if g else ""
+                    dv = {"Vec": lambda: VecV([]), "BTreeMap": lambda: MapV([]), "String": lambda: Str("")}.get(vt)
+                    if dv is None:
+                        raise Unsupported(f"Entry::or_default for value type {vt!r}")
+                    return do_insert(dv())
                 raise Unsupported(f"Entry::{meth}")
         return NotImplemented
     # ---- strings
